@@ -11,6 +11,7 @@ import (
 	"encoding/json"
 	"flag"
 	"fmt"
+	"go/types"
 	"os"
 	"os/exec"
 	"path/filepath"
@@ -64,6 +65,8 @@ type harnessFile struct {
 	Summ       []string
 	SummConc   []string
 	StubAlways []string
+	Load       []string
+	Bridges    [][2]string
 	Bounds     []string
 	Outside    []string
 	Assume     []string
@@ -128,6 +131,13 @@ func parseHarness(path string) (*harnessFile, error) {
 				if sp[0] == "stub-always" {
 					hf.StubAlways = append(hf.StubAlways, f[0])
 				}
+			}
+		case "load":
+			hf.Load = append(hf.Load, arg)
+		case "bridge":
+			f := strings.Fields(arg)
+			if len(f) == 2 {
+				hf.Bridges = append(hf.Bridges, [2]string{f[0], f[1]})
 			}
 		case "summarize":
 			hf.Summ = append(hf.Summ, arg)
@@ -256,6 +266,9 @@ func load(files []*harnessFile) (*loaded, error) {
 	for _, hf := range files {
 		overlay[overlayName(hf)] = hf.Content
 		patterns["./"+hf.PkgDir] = true
+		for _, l := range hf.Load {
+			patterns["./"+l] = true
+		}
 	}
 	var pats []string
 	for p := range patterns {
@@ -324,10 +337,66 @@ func load(files []*harnessFile) (*loaded, error) {
 			}
 			fc.stubs[st[0]] = fn
 		}
+		for _, br := range hf.Bridges {
+			local := p.Func(br[0])
+			if local == nil {
+				return nil, fmt.Errorf("%s: bridge: local function %s not found", hf.Path, br[0])
+			}
+			target, err := findFunc(prog, br[1])
+			if err != nil {
+				return nil, fmt.Errorf("%s: bridge: %v", hf.Path, err)
+			}
+			fc.stubs[local.String()] = target
+			fc.always[local.String()] = true
+		}
 		ld.cfg[hf.Path] = fc
 	}
 	ld.loadS = time.Since(t0).Seconds()
 	return ld, nil
+}
+
+// findFunc resolves "pkgpath.Func" or "(*pkgpath.Type).Method" in the program,
+// including unexported names.
+func findFunc(prog *ssa.Program, name string) (*ssa.Function, error) {
+	if strings.HasPrefix(name, "(") {
+		end := strings.Index(name, ").")
+		if end < 0 {
+			return nil, fmt.Errorf("bad method name %s", name)
+		}
+		recv, meth := name[1:end], name[end+2:]
+		ptr := strings.HasPrefix(recv, "*")
+		recv = strings.TrimPrefix(recv, "*")
+		dot := strings.LastIndex(recv, ".")
+		pkg := prog.ImportedPackage(recv[:dot])
+		if pkg == nil {
+			return nil, fmt.Errorf("package %s not loaded", recv[:dot])
+		}
+		tp := pkg.Type(recv[dot+1:])
+		if tp == nil {
+			return nil, fmt.Errorf("type %s not found", recv)
+		}
+		pkg.Build()
+		var T types.Type = tp.Object().Type()
+		if ptr {
+			T = types.NewPointer(T)
+		}
+		fn := prog.LookupMethod(T, pkg.Pkg, meth)
+		if fn == nil {
+			return nil, fmt.Errorf("method %s not found", name)
+		}
+		return fn, nil
+	}
+	dot := strings.LastIndex(name, ".")
+	pkg := prog.ImportedPackage(name[:dot])
+	if pkg == nil {
+		return nil, fmt.Errorf("package %s not loaded", name[:dot])
+	}
+	pkg.Build()
+	fn := pkg.Func(name[dot+1:])
+	if fn == nil {
+		return nil, fmt.Errorf("function %s not found", name)
+	}
+	return fn, nil
 }
 
 func harnessFiles(prop string) ([]*harnessFile, error) {
